@@ -111,7 +111,7 @@ def move_groups(tier, props=("C08", "C09", "C10", "C11")):
             else:
                 d.update(mat(k, k, kd, "D_"))
             for mode in ("EXTRACT_U", "EXTRACT_L"):
-                add(mode, d, "%dx%d.%s-%s" % (nr, nc, kd or "null", ka), unwind=max(k, 8) + 6, timeout=600)
+                add(mode, d, "%dx%d.%s-%s" % (nr, nc, kd or "null", ka), unwind=max(nr, k, 8) + 6, timeout=600)
 
     # ---- transpose: every size class of the kernels ----
     tshapes = [(1, 1), (3, 5), (8, 8), (7, 12), (16, 16), (9, 30), (32, 32), (33, 50), (64, 64), (3, 130), (17, 65), (65, 17), (64, 70), (70, 64), (70, 70), (1, 200), (200, 1)]
